@@ -71,8 +71,8 @@ def rebuild_burrow(t, memo, like):
             r = claripy.If(*args)
         else:
             name, full = claripy_node(t, args)
-            base = next(x for x in args if isinstance(x, claripy.ast.Base))
-            r = base.make_like(name, full, length=E.width(t)) if E.width(t) is not None else base.make_like(name, full)
+            # raw node of the right sort (what expr.make_like(expr.op, args) / old_true.__class__(op, args, length=...) create)
+            r = claripy.ast.Bool(name, full) if E.is_bool(t) else claripy.ast.BV(name, full, length=E.width(t))
     memo[key] = r
     return r
 
